@@ -368,6 +368,11 @@ class Mod(object):
                 self.normal = normal.normalise(self)
             except Exception:      # normalisation is an aid, never a reason to fail
                 pass
+            try:
+                from . import normal
+                self.normal["canonical"] = normal.canonical_control(self)
+            except Exception:
+                pass
             if any(self.normal.values()):
                 ast.fix_missing_locations(self.tree)
                 set_parents(self.tree)
